@@ -69,9 +69,10 @@ def write_replay(prop, fn, cfg, ob, do_run=True):
         if ob["name"] == "setup.completes":
             # confirmed iff CPython, running the real code, raised the same exception before reaching the function
             blob = json.dumps(res, default=str)
-            res = dict(res, confirmed=bool(ob.get("exc")) and (ob["exc"] + ":" in blob or '"exception": "%s"' % ob["exc"] in blob
-                                                                or ob["exc"] + "(" in blob),
-                       expected_exception=ob.get("exc"))
+            same_exc = bool(ob.get("exc")) and (ob["exc"] + ":" in blob or '"exception": "%s"' % ob["exc"] in blob or ob["exc"] + "(" in blob)
+            # ... raised by the repository's code (its files are in the native traceback), not by the replay harness
+            in_repo = (REPO.rstrip("/") + "/pysnark") in blob or '"exception": "%s"' % ob.get("exc") in blob
+            res = dict(res, confirmed=same_exc and in_repo, expected_exception=ob.get("exc"))
         rec["replay"] = res
         confirmed = bool(res.get("confirmed"))
     rec["confirmed_on_real_code"] = confirmed
